@@ -290,6 +290,28 @@ Proof.
   - exact N3.
 Qed.
 
+Lemma exec_start_facts a w t : Pre a w -> live (gr w) (tn t) = true -> reach a w t ->
+  ~ In t (opens (trace w)) /\ Pre (Some t) (emit (set_cur (reset_task w t) (Some t)) (EExecStart t)) /\
+  (forall u, path (gr w) u (tn t) -> path (gr (reset_task w t)) u (tn t)).
+Proof.
+  intros [HL [HO HN]] Lt R.
+  assert (Hnot : ~ In t (opens (trace w))) by (apply (reach_acyclic a); [apply HL|exact HO|exact R]).
+  destruct (reset_task_facts w t (proj1 HL)) as [R1 [R2 [R3 [R4 [_ [R6 _]]]]]].
+  set (w2 := emit (set_cur (reset_task w t) (Some t)) (EExecStart t)).
+  assert (W : WF (gr w)) by apply HL.
+  assert (PR : forall u, path (gr w) u (tn t) -> path (gr w2) u (tn t)).
+  { intros u Pu. apply (path_pres (gr w)); [|exact Pu]. intros n Pn x X.
+    assert (Hn : n <> tn t) by (intros ->; exact (WF_acyclic (gr w) (tn t) W Pn)). change (In x (kids_of (gr (reset_task w t)) n)). rewrite (R2 n Hn). exact X. }
+  split; [exact Hnot|]. split; [|exact PR].
+  assert (L2 : L w2).
+  { split; [exact R1|]. split; [intros x X; cbn in X; inversion X; subst x; apply R3; exact Lt|intros x X; apply R3; apply (proj2 (proj2 HL)); exact X]. }
+  split; [exact L2|]. split.
+  - intros x X. change (In x (t :: opens (trace (reset_task w t)))) in X. rewrite R4 in X. destruct X as [<-|X]; [left; reflexivity|right].
+    apply PR. destruct a as [c|]; unfold OI in HO; [|rewrite HO in X; destruct X].
+    destruct (HO x X) as [E|Pth]; [replace (tn x) with (tn c) by (symmetry; exact E); apply R; reflexivity|eapply path_trans; [exact Pth|apply R; reflexivity]].
+  - change (~ In t (opens (trace (reset_task w t))) /\ NN (trace (reset_task w t))). rewrite R4. split; assumption.
+Qed.
+
 Lemma reserve_edge w t w3 : WF (gr w) -> reserve_require_dependency w t = Done tt w3 ->
   forall s, cur w = Some s -> In (tn t) (kids_of (gr w3) (tn s)).
 Proof.
